@@ -77,7 +77,7 @@ func main() {
 				r := rec.NewRand(o.Seed)
 				for i := 0; i < 60; i++ {
 					rr := r.Fork()
-					runAPICase(ctx, w, farm, scen.Generate(rr, scen.DefaultOpts()), rr.Uint64(), o.Tier)
+					runAPICase(ctx, w, farm, scen.Generate(rr, scen.DefaultOpts()).RenameIDs(rr), rr.Uint64(), o.Tier)
 				}
 			}
 		}
@@ -89,6 +89,10 @@ func main() {
 	for i := 0; i < o.N; i++ {
 		rr := r.Fork()
 		s := scen.Generate(rr, scen.DefaultOpts())
+		if rr.Chance(2, 3) { // ids from the whole accepted range (some sort before the wildcard "*")
+			s = s.RenameIDs(rr)
+			w.Stat("scenarios_with_arbitrary_ids", 1)
+		}
 		runAPICase(ctx, w, farm, s, rr.Uint64(), o.Tier)
 		for k := 0; k < 6; k++ {
 			runReaderCase(ctx, w, r.Uint64())
